@@ -43,6 +43,10 @@ CHECKS = {
    technique="TLC: Int64.tla (byte-limb two's-complement arithmetic) model-checked at reduced width against native integers; AnkoArith.tla computes every operator x operand-pair result (exact int64, or the float64 primitive term) over the edge pools; replay on the real VM through four operand provenances; TLC trace validation of random int64 tuples",
    text="The integer tower is interpreted inside TLA+ (wrap-around, unsigned shift counts, truncated remainder, signed order, decimal formatting), itself model-checked exhaustively at width 8 bits and on an edge pool at 16 bits; the dispatch (which kind wins, which operand is converted, which primitive applies, error or not) is enumerated exhaustively over operator x pool x pool and compared, value and dynamic type, with the real interpreter. Float leaves are Go's own arithmetic by the statement's definition.",
    note="Trusted: IEEE-754 float64, fmt.Sprint formatting and float64(int64) rounding as implemented by Go (primitive terms); TLC. Bounds: 24 (quick) / 55 (thorough) int64 edge values, 13/27 floats, 4 strings, all ordered pairs x 15 binary + 2 unary operators, depth-2 integer trees over 6/9 values; random tuples 1.5k/20k."),
+ "C06": dict(level="model_checking", design="5 (C06), 3.2",
+   technique="TLC trace validation (Trace_AnkoEq.tla over AnkoEq.tla): the six syntactic uses of equality evaluated by the real VM for every ordered pair of the value pool are accepted iff the laws hold and the verdict matches where the statement decides",
+   text="AnkoEq gives the relation the statement fixes (nil, same-type primitives, int-vs-float via float64, decimal numeral strings, structural containers) and leaves the rest open; the laws (symmetry, != negation, in/switch coherence, int-float equality iff <= and >=) are asserted for every pair. Exhaustive over the pool in both operand orders.",
+   note="Trusted: Go's float64 == (recorded natively), the pool generator's numeric denotation of numeral strings, TLC. Bounds: 66 (quick) / 94 (thorough) values, all unordered pairs x both orders x 5 scripts."),
 # <<ADD>>
 }
 
